@@ -90,7 +90,10 @@ func TransformModuleFilesToModel( //nolint:funlen,gocognit,cyclop
 		}
 
 		for _, typeDef := range mdl.GetTypeDefinitions() {
-			_, extension := typeDefExtensions[typeDef.GetType()]
+			// the extension is this very declaration, not merely a declaration of the same name:
+			// a file may define a type and extend another (or, across files, the same) one
+			extendedTypeDef, found := typeDefExtensions[typeDef.GetType()]
+			extension := found && extendedTypeDef == typeDef
 			if slices.Contains(types, typeDef.GetType()) && !extension {
 				lineIndex := utils.GetTypeLineNumber(typeDef.GetType(), lines)
 				line, col := utils.ConstructLineAndColumnData(lines, lineIndex, typeDef.GetType())
